@@ -105,3 +105,17 @@ def callee_tail(call: ast.Call) -> str:
 
 def fkey(f: FuncInfo, node: ast.AST | str) -> str:
     return f"{f.fq}::{norm(node)[:140]}"
+
+
+def callee_names(ctx: Ctx, f: FuncInfo, call: ast.Call, V: str | None = None) -> set[str]:
+    """Resolved callee names of a call site: external full names and repository function names."""
+    fr = Frame(ctx.I.make_callee(f, f.cls) if f.parent is None else Callee(f, f.cls, ()), V)
+    out = set()
+    for t in ctx.I.resolve_call(call, fr):
+        if t.kind == "external" and t.fullname:
+            out.add(t.fullname)
+        elif t.kind == "repo" and t.frame is not None:
+            out.add(t.frame.func.fq)
+        elif t.kind == "ctor" and t.cls is not None:
+            out.add(t.cls.fq)
+    return out
